@@ -353,3 +353,13 @@ def v1_pieces(stream, pl):
 def relpath_components(path, root):
     import os
     return os.path.relpath(path, root).split(os.sep)
+
+
+@native
+def gap(n, pl):
+    return (-n) % pl
+
+
+@native
+def sum_lengths(files):
+    return sum(f["length"] for f in files)
